@@ -217,7 +217,10 @@ class Engine(object):
 
         @self.spec('keys')
         def keys(I, ctx, d):
-            dm = M.dict_sym(I, ctx, I.resolve(ctx, d))
+            d = I.resolve(ctx, d)
+            if isinstance(d, VNone):
+                return VSet(Z.empty_set(Z.Str), TStr)       # total
+            dm = M.dict_sym(I, ctx, d)
             return VSet(dm[0], dm[2])
 
         @self.spec('subset')
